@@ -283,8 +283,90 @@ func concScenario(nGlobals, nThreads, perRoute int) *mc.Scenario {
 	}
 }
 
+// concScenarioShared: every thread's first route option is the SAME WithMiddleware option value
+// (holding nShared middleware), followed by its own option.
+func concScenarioShared(nGlobals, nShared, nThreads int) *mc.Scenario {
+	return &mc.Scenario{
+		Name:    fmt.Sprintf("NewRoute x%d sharing one WithMiddleware option value of %d, %d global middleware", nThreads, nShared, nGlobals),
+		Require: []vs.OpKind{vs.OpHook},
+		Build: func() *mc.Instance {
+			var tr []string
+			trace = &tr
+			var opts []fox.GlobalOption
+			for i := 0; i < nGlobals; i++ {
+				opts = append(opts, fox.WithMiddleware(mw(fmt.Sprintf("g%d", i))))
+			}
+			f, err := fox.New(opts...)
+			if err != nil {
+				panic(err)
+			}
+			var sharedIDs []string
+			var sharedMws []fox.MiddlewareFunc
+			for i := 0; i < nShared; i++ {
+				id := fmt.Sprintf("s%d", i)
+				sharedIDs = append(sharedIDs, id)
+				sharedMws = append(sharedMws, mw(id))
+			}
+			shared := fox.WithMiddleware(sharedMws...)
+			routes := make([]*fox.Route, nThreads)
+			ids := make([][]string, nThreads)
+			bodies := make([]func(), nThreads)
+			for t := 0; t < nThreads; t++ {
+				t := t
+				own := fmt.Sprintf("o%d", t)
+				ids[t] = append(append([]string{}, sharedIDs...), own, own+"b")
+				bodies[t] = func() {
+					rt, err := f.NewRoute(fmt.Sprintf("/t%d", t), handler(fmt.Sprintf("H%d", t)), shared, fox.WithMiddleware(mw(own)), fox.WithMiddleware(mw(own+"b")))
+					if err != nil {
+						panic(err)
+					}
+					routes[t] = rt
+				}
+			}
+			return &mc.Instance{
+				Bodies: bodies,
+				Check: func(x *mc.Exec) (string, string, string) {
+					for t := 0; t < nThreads; t++ {
+						if pv, _ := x.S.PanicOf(t); pv != nil {
+							return "panic", "panic", fmt.Sprint(pv)
+						}
+					}
+					cfg := Config{}
+					for i := 0; i < nGlobals; i++ {
+						cfg.Globals = append(cfg.Globals, 255)
+					}
+					for t := 0; t < nThreads; t++ {
+						if err := f.HandleRoute("GET", routes[t]); err != nil {
+							return "error", "error", err.Error()
+						}
+						tr = tr[:0]
+						f.ServeHTTP(fx.NewRW(), fx.Req("GET", "", fmt.Sprintf("/t%d", t)))
+						got, want := strings.Join(tr, " "), expected(cfg, 0, ids[t], fmt.Sprintf("H%d", t))
+						if got != want {
+							return got, "chain-affected-by-other-route", fmt.Sprintf("route /t%d (built from an option value shared with other routes) runs [%s], want [%s]", t, got, want)
+						}
+						tr = tr[:0]
+						routes[t].HandleMiddleware(fox.NewTestContextOnly(fx.NewRW(), fx.Req("GET", "", "/x")))
+						got, want = strings.Join(tr, " "), expected(Config{}, 0, ids[t], fmt.Sprintf("H%d", t))
+						if got != want {
+							return got, "chain-affected-by-other-route", fmt.Sprintf("HandleMiddleware of route /t%d (shared option value) runs [%s], want [%s]", t, got, want)
+						}
+					}
+					return "ok", "", ""
+				},
+			}
+		},
+	}
+}
+
 func concScenarios() []*mc.Scenario {
 	var out []*mc.Scenario
+	for _, g := range []int{0, 3} {
+		for _, ns := range []int{1, 2, 3, 5} {
+			out = append(out, concScenarioShared(g, ns, 2))
+		}
+	}
+	out = append(out, concScenarioShared(0, 3, 3))
 	for _, g := range []int{0, 1, 2, 3, 5, 6} {
 		out = append(out, concScenario(g, 2, 1), concScenario(g, 2, 2))
 	}
